@@ -196,6 +196,7 @@ func Copy(src, dst string) error {
 // Move moves a file from one path to another.  It attempts to do a rename and,
 // if that fails, will instead do a copy followed by a deletion of the
 // original.  If the destination file already exists it will be overwritten.
+// At every instant the complete content is found under src or under dst.
 func Move(src, dst string) error {
 	var err error
 	// A rename straight onto the destination is atomic: neither a reader of the
@@ -211,14 +212,18 @@ func Move(src, dst string) error {
 	if err = Copy(src, dst+LockExt); err != nil {
 		return err
 	}
-	if err = os.Remove(src); err != nil {
-		return err
-	}
 	verifhook.Point("fileutil.d.move.lck", dst)
 	if err = os.Rename(dst+LockExt, dst); err != nil {
 		return err
 	}
 	verifhook.Point("fileutil.d.move.renamed", dst)
+	// The original goes last.  Removing it before the copy has its name would
+	// leave, after a crash in between, the only copy under the lock name, which
+	// nothing ever picks up again.  A crash before this line leaves the original
+	// in place next to the complete destination: the move is simply done again.
+	if err = os.Remove(src); err != nil {
+		return err
+	}
 	verifhook.Point("fileutil.d.move.done", dst)
 	return nil
 }
